@@ -209,6 +209,10 @@ def family(run, prefixes, faults, crash, variants=None):
                 if rnd.random() < variants["wfail"]:
                     for nfail in (1, 2, 3, 6):   # 6: more than any small retry budget a refactoring might introduce
                         extra.append(dict(c, variant="wfail:%d:%d" % (j, nfail)))
+    if variants.get("sameobj"):
+        for c in keep:
+            if rnd.random() < variants["sameobj"]:
+                extra.append(dict(c, variant="sameobj"))
     if variants.get("dfail"):
         # the k-th datastore write of a (handler-wise) successful DeleteRange fails; the deletion is retried
         for c in keep:
@@ -245,19 +249,20 @@ def family(run, prefixes, faults, crash, variants=None):
 @register("C04")
 def c04(run):
     family(run, ["C04_", "C06_clean_restart"], faults=False, crash=False,
-           variants={"nowait": 0.3, "wfail": 0.08 if run.tier == "quick" else 0.5})
+           variants={"nowait": 0.3, "wfail": 0.08 if run.tier == "quick" else 0.5, "sameobj": 0.1 if run.tier == "quick" else 0.5})
 
 
 @register("C08")
 def c08(run):
     family(run, ["C08_", "C06_clean_restart"], faults=True, crash=False,
            variants={"nowait": 1.0, "parallel": 0.5 if run.tier == "quick" else 1.0, "parscen": 150 if run.tier == "quick" else 1500,
-                     "dfail": 0.15 if run.tier == "quick" else 1.0})
+                     "dfail": 0.15 if run.tier == "quick" else 1.0, "sameobj": 0.08 if run.tier == "quick" else 0.5})
 
 
 @register("C14")
 def c14(run):
-    family(run, ["C14_"], faults=True, crash=False, variants={"parallel": 1.0, "parscen": 300 if run.tier == "quick" else 3000})
+    family(run, ["C14_"], faults=True, crash=False, variants={"parallel": 1.0, "parscen": 300 if run.tier == "quick" else 3000,
+                                                               "sameobj": 0.1 if run.tier == "quick" else 0.5})
 
 
 @register("C06")
